@@ -121,6 +121,36 @@ def run(ctx):
         ctx.decide(leak is None or benign, "C19.ac", ac.ident, loc_of(ac, Y.ast),
                    "every normal or exceptional path from the yield to an exit restores the previous defaults (or finds nothing to delete)",
                    "a path from the yield to an exit restores nothing: after the with-block (or after an exception in it) the temporary checkpoint defaults stay on the instance", disc="all-paths")
+        # the restore comes first in the clean-up: nothing that may raise is executed between leaving the yield and the restore
+        BENIGN = {"hasattr", "getattr", "delattr", "isinstance", "len", "bool", "id"}
+
+        def risky(node):
+            for c in calls_in(node.ast) if node.ast is not None else []:
+                if isinstance(c.func, ast.Name) and c.func.id in BENIGN:
+                    continue
+                if isinstance(c.func, ast.Attribute) and isinstance(c.func.value, ast.Name) and c.func.value.id in ("logger", "logging"):
+                    continue
+                if isinstance(c.func, ast.Attribute) and c.func.attr == "pop" and ("__dict__" in ast.unparse(c.func.value) or "vars(" in ast.unparse(c.func.value)):
+                    continue
+                return c
+            return None
+        seen_, todo_, early = set(), [m for m, lab in g.succ[Y]], None
+        while todo_ and early is None:
+            n = todo_.pop()
+            if n in seen_ or n in restores or n is g.exit or n is g.raise_exit:
+                continue
+            seen_.add(n)
+            if n.kind in ("stmt", "test") and n is not Y:
+                early = risky(n) and n
+                early = early or None
+            nothing_to_delete = (n.kind == "test" and isinstance(n.ast, ast.Call) and isinstance(n.ast.func, ast.Name) and n.ast.func.id == "hasattr"
+                                 and len(n.ast.args) == 2 and isinstance(n.ast.args[1], ast.Constant) and n.ast.args[1].value == ATTR)
+            todo_.extend(m for m, lab in g.succ[n] if lab != "exc" and not (nothing_to_delete and lab == "false"))
+        ctx.decide(early is None, "C19.ac", ac.ident, loc_of(ac, early.ast if early is not None else Y.ast),
+                   "the clean-up restores first: no call that may raise runs between leaving the with-body and the restore",
+                   (f"`{ast.unparse(risky(early))[:80]}` runs in the clean-up before the previous defaults are put back: if it raises (file I/O, serialisation, "
+                    "a user object), the restore is skipped and the temporary defaults stay on the instance -- and in a nest the enclosing context then "
+                    "fails the same way") if early is not None else "", disc="restore-first")
         # both branches restore the right thing
         kinds = set()
         for r in restores:
@@ -310,7 +340,12 @@ MUTANTS += [
     M("inner context updates the outer defaults in place", _A, "self._checkpoint_defaults = {\n            \"path\": path,\n            \"every\": every,\n            \"save_config\": save_config,\n            \"save_flow\": save_flow,\n            \"saved_config\": False,\n            \"saved_flow\": False,\n        }",
       "defaults = prev if prev is not None and prev.get(\"path\") == path else {\"saved_config\": False, \"saved_flow\": False}\n        defaults.update(path=path, every=every, save_config=save_config, save_flow=save_flow)\n        self._checkpoint_defaults = defaults", "C19.ac"),
 ]
+MUTANTS += [
+    M("clean-up does file I/O before the restore", _A, "finally:\n            if prev is None:", "finally:\n            AspireFile(path, \"a\").close()\n            if prev is None:", "C19.ac"),
+]
 NEUTRALS = [
+    M("clean-up logs before and does work after the restore", _A, "finally:\n            if prev is None:\n                if hasattr(self, \"_checkpoint_defaults\"):\n                    delattr(self, \"_checkpoint_defaults\")\n            else:\n                self._checkpoint_defaults = prev",
+      "finally:\n            logger.debug(\"leaving auto_checkpoint\")\n            if prev is None:\n                if hasattr(self, \"_checkpoint_defaults\"):\n                    delattr(self, \"_checkpoint_defaults\")\n            else:\n                self._checkpoint_defaults = prev\n            AspireFile(path, \"a\").close()"),
     M("delete through the instance dict", _A, "if hasattr(self, \"_checkpoint_defaults\"):\n                    delattr(self, \"_checkpoint_defaults\")", "self.__dict__.pop(\"_checkpoint_defaults\", None)"),
     M("finally with inverted test", _A, "if prev is None:\n                if hasattr(self, \"_checkpoint_defaults\"):\n                    delattr(self, \"_checkpoint_defaults\")\n            else:\n                self._checkpoint_defaults = prev",
       "if prev is not None:\n                self._checkpoint_defaults = prev\n            else:\n                if hasattr(self, \"_checkpoint_defaults\"):\n                    delattr(self, \"_checkpoint_defaults\")"),
